@@ -53,6 +53,9 @@ var Types = []TypeInfo{
 // it so for STRICT tables and Atlas compares user-defined type names case-sensitively.
 var ExtraTypes = []TypeInfo{
 	{"ANY", `sql("ANY")`, "NUMERIC", true},
+	// STRING is not a SQLite type name (ORMs and people write it): by SQLite's rule its affinity is
+	// NUMERIC, so such a column stores numbers as numbers
+	{"string", `sql("string")`, "NUMERIC", false},
 }
 
 // Affinities lists the five affinity classes.
